@@ -31,7 +31,13 @@ RULE = ("All 136 (k, n) pairs with 1 <= k <= n <= 16, 16- and 32-byte secrets, s
         "odd share at every position; fewer shares than the DECLARED threshold whose digest verifies (lower-threshold split "
         "relabelled), group and member level; sentences and secret lengths generate_shares / split_secret must refuse; 1-of-1 "
         "shares of every length 128..320 bits through recover_mnemonic; Share objects edited in place; RS1024 symbols outside "
-        "0..1023 (correspondence only).")
+        "0..1023 (correspondence only). Entry-point audit round: optional arguments omitted / by keyword, tuples and iterators, class "
+        "methods on instances, Share by keyword, repr(share); BIP39 sentences in prefix spelling / other white space; shares and "
+        "pipelines whose every field is all-zero / all-one; whole texts of unusual classes (empty, digits, capitals); an illegal "
+        "word where the checksum (share) or the neighbouring word (sentence) is chosen so that a lenient reading as -1, 0, 1023, "
+        "1024, 2047, ... would verify; two-level sets whose groups differ in member threshold, exactly at threshold; the same "
+        "Share objects, lists and GF(256) tables used again after results and refusals, _load() repeated, tables compared "
+        "with the powers of x+1 once more after all cases.")
 TRUSTED = ["hashlib/hmac (sha256, hmac-sha256, pbkdf2_hmac): universally quantified functions in the theorems; in "
            "the extracted model pbkdf2_hmac is RFC 8018 PBKDF2 (Spec/Pbkdf2S.v) over the HMAC oracle",
            "harness/gen_coq.py copies the word-list files into coq/Generated/Wordlists.v"]
@@ -411,6 +417,8 @@ def p_gf():
         for b in range(1, 256):
             if exp[(log[a] + log[b]) % 255] != gf_mul(a, b):
                 return f"table product {a}*{b} differs from carry-less multiplication mod 0x11B"
+    if not _tables_ok():
+        return "the tables are not exp[i] = (x+1)^i, log2 = its inverse with log2[0] = 0"
     return None
 
 
@@ -955,7 +963,316 @@ def p_rs1024(cs, l):
     return None
 
 
-PROPS = {"other_lengths": p_other_lengths, "refused": p_refused, "mixed_lengths": p_mixed_lengths,
+# ---------------------------------------------------------------- audit round: entry points, defaults, byte classes,
+# lenient decoding with compensation, reuse of sources after a result (all expectations from the independent helpers)
+
+
+def ref_polymod_ext(values):
+    """ref_polymod for symbols that are arbitrary integers, as a decoder that read an illegal word as -1 / 1024 / ...
+    would feed them: bits 10..29 of the symbol fall on the two upper registers of the division (integers wrap modulo
+    2^30: -1 acts as 0x3FFFFFFF); only meaningful when at least three symbols follow"""
+    r2, r1, r0 = 0, 0, 1
+    for v in values:
+        v &= 0x3FFFFFFF
+        r2, r1, r0 = (r1 ^ _RSMUL[0][r2] ^ (v >> 20), r0 ^ _RSMUL[1][r2] ^ ((v >> 10) & 1023),
+                      (v & 1023) ^ _RSMUL[2][r2])
+    return (r2 << 20) | (r1 << 10) | r0
+
+
+def p_lenient(f, pos, token, readas):
+    """no lenient decoding: a share text in which one word is replaced by the illegal token is refused ALSO when the
+    rest of the text is chosen so that the checksum verifies if the token were read as the number `readas` (0, 1, 1023:
+    the token stands where that word stood in a valid share; -1, 1024, 2047, ...: the three checksum words compensate;
+    `pos` indexes the words before the checksum, or — for readas in 0..1023 — a checksum word, found by grinding the value)"""
+    token = _txt(token)
+    if token in SLI or any(token == w[:4] and len(w) > 4 for w in SL):
+        return "harness: the token is a legal spelling"
+    f = list(f)
+    idx = [SLI[w] for w in enc_share(f).split(" ")]
+    nw = len(idx)
+    pos %= nw
+    if pos >= nw - 3:
+        if not 0 <= readas < 1024:
+            return None
+        for t in range(1 << 14):                 # grind the low value bits until that checksum word is `readas`
+            g = f[:8] + [f[8] ^ t]
+            idx = [SLI[w] for w in enc_share(g).split(" ")]
+            if idx[pos] == readas:
+                break
+        else:
+            return None
+    else:
+        data = idx[:-3]
+        data[pos] = readas
+        pm = ref_polymod_ext(list(b"shamir") + data + [0, 0, 0]) ^ 1
+        idx = data + [(pm >> 20) & 1023, (pm >> 10) & 1023, pm & 1023]
+        if ref_polymod_ext(list(b"shamir") + idx) != 1:
+            return "harness: compensation failed"
+    if 0 <= readas < 1024:
+        # the text with the legal word in that place is a code word (and a share unless the header is out of range)
+        if ref_polymod(list(b"shamir") + idx) != 1:
+            return "harness: not a code word"
+    ws = [SL[i] if j != pos else token for j, i in enumerate(idx)]
+    for sep in (" ", "\t"):
+        try:
+            s = Share.parse(sep.join(ws))
+        except Exception:
+            continue
+        return (f"Share.parse accepted the illegal word {token!r} at position {pos} (as if it were the number {readas}): "
+                f"fields {sfields(s)}")
+    return None
+
+
+def p_sentence_lenient(entropy, k, n, pos, token, readas, ident, rnd):
+    """generate_shares refuses a sentence with an illegal word ALSO when the neighbouring word is chosen so that the
+    sentence would decode to a valid one if the token were read as the number `readas` (mnemonic_to_bytes ADDS the
+    indices: (a, -1) would read as (a - 1, 2047); (a, 2048) as (a + 1, 0); 0 / 2047: the token stands for abandon / zoo)"""
+    token = _txt(token)
+    if token in BW or any(token == w[:4] and len(w) > 4 for w in BW):
+        return "harness: the token is a legal spelling"
+    nb = len(entropy)
+    nwords = nb * 8 * 33 // 32 // 11
+    pos = 1 + pos % (nwords - 2)                   # 1 .. nwords-2: both groups lie inside the entropy bits
+    target, carry = readas % 2048, readas // 2048  # readas = carry * 2048 + target
+    e = int.from_bytes(entropy, "big")
+
+    def group(p):
+        return (e >> (nb * 8 - 11 * (p + 1))) & 2047
+
+    def setgroup(p, v):
+        sh = nb * 8 - 11 * (p + 1)
+        return (e & ~(2047 << sh)) | (v << sh)
+    e = setgroup(pos, target)
+    if not 0 <= group(pos - 1) - carry <= 2047:
+        e = setgroup(pos - 1, 1000)
+    ent = e.to_bytes(nb, "big")
+    ws = ref_bip39(ent).split(" ")
+    if BW.index(ws[pos]) != target:
+        return "harness: group not set"
+    bad = list(ws)
+    bad[pos - 1] = BW[BW.index(ws[pos - 1]) - carry]
+    bad[pos] = token
+    with patched(Rnd(ident, rnd), True):
+        got = ShareSet.generate_shares(" ".join(ws), k, n, b"", 0)
+        if got != ref_generate(ent, k, n, b"", 0, ident, rnd, stub_kdf):
+            return "the valid sentence is not split into the SLIP39 shares"
+    with patched(Rnd(ident, rnd), True):
+        try:
+            got = ShareSet.generate_shares(" ".join(bad), k, n, b"", 0)
+        except Exception:
+            return None
+    return (f"generate_shares accepted a sentence with the illegal word {token!r} at position {pos} "
+            f"(as if it were the number {readas}): {str(got)[:80]}")
+
+
+def p_sentence_spelling(entropy, k, n, pw, e, ident, rnd, mask, sep, lead, trail):
+    """the BIP39 sentence spelled with unique four-letter prefixes and other white space is the same secret: the same
+    shares as for the sentence spelled in full"""
+    ws = ref_bip39(entropy).split(" ")
+    ws = [w[:4] if (mask >> j) & 1 and len(w) > 4 else w for j, w in enumerate(ws)]
+    text = _txt(lead) + _txt(sep).join(ws) + _txt(trail)
+    want = ref_generate(entropy, k, n, pw, e, ident, rnd, stub_kdf)
+    with patched(Rnd(ident, rnd), True):
+        got = ShareSet.generate_shares(text, k, n, pw, e)
+    if got != want:
+        return "the sentence in prefix spelling / other white space is split into other shares than the sentence in full"
+    return None
+
+
+def p_defaults(entropy, k, n, pw, e, ident, rnd):
+    """omitted optional arguments mean passphrase b"" and exponent 0, keyword and positional calls agree, share lists may
+    be tuples / iterators, class methods may be called on an instance; an explicit call in between does not change what
+    an omitted argument means"""
+    m = ref_bip39(entropy)
+    nb = len(entropy)
+
+    def gen(*a, **kw):
+        with patched(Rnd(ident, rnd), True):
+            return ShareSet.generate_shares(*a, **kw)
+
+    def want(p, x):
+        return ref_generate(entropy, k, n, p, x, ident, rnd, stub_kdf)
+    calls = [("no optional argument", lambda: gen(m, k, n), want(b"", 0)),
+             ("passphrase and exponent by keyword", lambda: gen(m, k, n, exponent=e, passphrase=pw), want(pw, e)),
+             ("no optional argument, after an explicit call", lambda: gen(m, k, n), want(b"", 0)),
+             ("exponent only", lambda: gen(m, k, n, exponent=e), want(b"", e)),
+             ("passphrase only (positional)", lambda: gen(m, k, n, pw), want(pw, 0)),
+             ("all by keyword", lambda: gen(mnemonic=m, k=k, n=n, passphrase=pw, exponent=e), want(pw, e)),
+             ("no optional argument, third time", lambda: gen(m, k, n), want(b"", 0))]
+    for what, f, w in calls:
+        got = f()
+        if got != w:
+            return f"generate_shares with {what} does not return the SLIP39 shares for that passphrase / exponent"
+    plain, locked = want(b"", 0), want(pw, e)
+    enc = ref_feistel(entropy, ident, e, pw, stub_kdf)
+    nopw = ref_feistel(enc, ident, e, b"", stub_kdf, (3, 2, 1, 0))      # the locked shares opened with no passphrase
+    with patched(fast=True):
+        sub = list(range(n))[n - k:]
+        for what, f, w in [
+                ("recover_mnemonic(list)", lambda: ShareSet.recover_mnemonic([plain[i] for i in sub]), m),
+                ("recover_mnemonic(list, passphrase=)", lambda: ShareSet.recover_mnemonic([locked[i] for i in sub], passphrase=pw), m),
+                ("recover_mnemonic(tuple)", lambda: ShareSet.recover_mnemonic(tuple(plain[i] for i in sub)), m),
+                ("recover_mnemonic(iterator, pw)", lambda: ShareSet.recover_mnemonic(iter([locked[i] for i in sub]), pw), m),
+                ("recover_mnemonic(share_mnemonics=, passphrase=)",
+                 lambda: ShareSet.recover_mnemonic(share_mnemonics=[locked[i] for i in sub[::-1]], passphrase=pw), m),
+                ("recover_mnemonic(list) again", lambda: ShareSet.recover_mnemonic([plain[i] for i in sub]), m),
+                ("recover_mnemonic on an instance", lambda: ShareSet([Share.parse(plain[0])]).recover_mnemonic([locked[i] for i in sub], pw), m)]:
+            try:
+                got = f()
+            except Exception as ex:  # noqa
+                return f"{what} raised {ex!r}"
+            if got != w:
+                return f"{what} returned another mnemonic"
+        objs = [Share.parse(locked[i]) for i in sub]
+        for what, cont in (("list", list), ("tuple", tuple)):
+            ss = ShareSet(cont(objs))
+            seq = [("recover()", lambda: ss.recover(), nopw), ("recover(pw)", lambda: ss.recover(pw), entropy),
+                   ("recover() after recover(pw)", lambda: ss.recover(), nopw),
+                   ("recover(passphrase=pw)", lambda: ss.recover(passphrase=pw), entropy),
+                   ("decrypt(c)", lambda: ss.decrypt(enc), nopw), ("decrypt(c, pw)", lambda: ss.decrypt(enc, pw), entropy),
+                   ("decrypt(c) after decrypt(c, pw)", lambda: ss.decrypt(enc), nopw),
+                   ("decrypt(secret=, passphrase=)", lambda: ss.decrypt(secret=enc, passphrase=pw), entropy),
+                   # encrypt is a class method: the identifier / exponent are the ARGUMENTS, not those of the instance
+                   ("instance.encrypt(p, id', e')", lambda: ss.encrypt(entropy, ident ^ 1, e + 1, pw),
+                    ref_feistel(entropy, ident ^ 1, e + 1, pw, stub_kdf)),
+                   ("instance.encrypt(p, id', e') without passphrase", lambda: ss.encrypt(entropy, ident ^ 1, e + 1),
+                    ref_feistel(entropy, ident ^ 1, e + 1, b"", stub_kdf))]
+            for w2, f, w in seq:
+                try:
+                    got = f()
+                except Exception as ex:  # noqa
+                    return f"ShareSet({what}).{w2} raised {ex!r}"
+                if got != w:
+                    return f"ShareSet({what}).{w2} is not the SLIP39 value for that passphrase"
+        for what, f, w in [("encrypt(p, id, e)", lambda: ShareSet.encrypt(entropy, ident, e), ref_feistel(entropy, ident, e, b"", stub_kdf)),
+                           ("encrypt(p, id, e, passphrase=)", lambda: ShareSet.encrypt(entropy, ident, e, passphrase=pw), enc),
+                           ("encrypt(payload=, id=, exponent=)", lambda: ShareSet.encrypt(payload=entropy, id=ident, exponent=e),
+                            ref_feistel(entropy, ident, e, b"", stub_kdf)),
+                           ("encrypt(p, id, e) again", lambda: ShareSet.encrypt(entropy, ident, e), ref_feistel(entropy, ident, e, b"", stub_kdf))]:
+            if f() != w:
+                return f"ShareSet.{what} differs from the SLIP39 Feistel network for that passphrase"
+    if nb in (16, 32) and Share(share_bit_length=nb * 8, id=ident, exponent=e, group_index=1, group_threshold=k, group_count=n,
+                                member_index=2, member_threshold=3, value=5).mnemonic() != enc_share([nb * 8, ident, e, 1, k, n, 2, 3, 5]):
+        return "Share built with keyword arguments encodes other fields"
+    return None
+
+
+def _ref_tables():
+    exp, log, cur = [0] * 255, [0] * 256, 1
+    for i in range(255):
+        exp[i], log[cur] = cur, i
+        cur = gf_mul(cur, 3)
+    return exp, log
+
+
+def _tables_ok():
+    exp, log = _ref_tables()
+    return list(ShareSet.exp) == exp and list(ShareSet.log2) == log
+
+
+def p_reuse(secret, gt, gc, groups, rnd, drop):
+    """sources used again after a result: the share objects, the lists handed in and the class tables are unchanged by
+    ShareSet(...), recover(), recover_mnemonic(), interpolate() and recover_secret(); a refused (insufficient / foreign)
+    set followed by a retry with the full set recovers; the same objects serve several sets; _load() is repeatable"""
+    nb = len(secret)
+    fl = ref_two_level(secret, gt, gc, groups, rnd)          # id 77, exponent 0, passphrase b"pw", stub KDF
+    texts = [enc_share(f) for f in fl]
+    m = ref_bip39(secret)
+    objs = [Share(*f) for f in fl]
+
+    def snap():
+        return [sfields(o) + [o.bytes] for o in objs]
+    s0 = snap()
+    # an insufficient subset: one group too few, or one member too few in group `drop`
+    by_group = {}
+    for j, f in enumerate(fl):
+        by_group.setdefault(f[3], []).append(j)
+    gsel = sorted(by_group)[:gt]
+    minimal = [j for g in gsel for j in by_group[g][:groups[g][0]]]
+    dg = gsel[drop % len(gsel)]
+    short = [j for j in minimal if fl[j][3] != dg] + by_group[dg][:groups[dg][0] - 1]
+    insufficient = short if (gt > 1 or groups[dg][0] > 1) else None
+    with patched(fast=True):
+        if not _tables_ok():
+            return "the GF(256) tables differ from the powers of x+1 modulo x^8+x^4+x^3+x+1 (before the case)"
+        for rnd_no in range(2):
+            order = objs[::-1] if rnd_no else list(objs)         # as built, then in reverse order
+            full = list(order)
+            ss = ShareSet(full)
+            if full != order or len(ss.shares) != len(objs):
+                return "ShareSet(...) changed the list it was given / holds another number of shares"
+            for p, w in ((b"pw", secret), (b"other", ref_feistel(ref_feistel(secret, 77, 0, b"pw", stub_kdf), 77, 0, b"other", stub_kdf, (3, 2, 1, 0))),
+                         (b"pw", secret)):
+                if ss.recover(p) != w:
+                    return f"recover({p!r}) on the full two-level set (call sequence pw, other, pw; round {rnd_no}) is wrong"
+                if full != order or snap() != s0 or len(ss.shares) != len(objs):
+                    return "recover() changed the share objects or the list of the set"
+            mn = ShareSet([objs[j] for j in minimal][::-1])
+            if mn.recover(b"pw") != secret or mn.recover(b"pw") != secret:
+                return "a minimal set of the same share objects (reversed) does not recover twice"
+            if insufficient is not None:
+                for how in ("objects", "texts"):
+                    try:
+                        if how == "objects":
+                            got = ShareSet([objs[j] for j in insufficient]).recover(b"pw")
+                        else:
+                            got = ShareSet.recover_mnemonic([texts[j] for j in insufficient], b"pw")
+                    except Exception:
+                        continue
+                    if got in (secret, m):
+                        return f"an insufficient set ({how}) returned the secret"
+            # a foreign share (other identifier) makes the set refused; the retry without it succeeds
+            foreign = Share(*([fl[0][0], 78] + fl[0][2:]))
+            try:
+                ShareSet(objs + [foreign])
+                return "a set with a share of another identifier was accepted"
+            except Exception:
+                pass
+            if snap() != s0:
+                return "a refused set changed the share objects"
+            tl = [texts[j] for j in minimal]
+            tb = list(tl)
+            for _ in range(2):
+                if nb in (16, 32) and ShareSet.recover_mnemonic(tl, b"pw") != m:
+                    return "recover_mnemonic on the same list of texts (second use included) is wrong"
+                if tl != tb:
+                    return "recover_mnemonic changed the list of texts it was given"
+        # interpolate / recover_secret leave their point lists alone and are repeatable
+        k = max(2, min(4, gt + 1))
+        pts = [(i, b) for i, b in ref_split(secret, k, 5, (rnd + bytes(range(200)))[:rnd_need(nb, k)])][5 - k:]
+        pb = list(pts)
+        for _ in range(2):
+            if ShareSet.interpolate(255, pts) != secret or ShareSet.recover_secret(pts) != secret or pts != pb:
+                return "interpolate / recover_secret changed their point list or are not repeatable"
+            if ShareSet.interpolate(0, pts) != ref_interp(0, pts):
+                return "interpolate at x = 0 differs from Lagrange interpolation over GF(256)"
+        if not _tables_ok():
+            return "the GF(256) tables were changed by the calls"
+        exp_id, log_id = ShareSet.exp, ShareSet.log2
+        ShareSet._load()
+        if not _tables_ok() or len(ShareSet.exp) != 255 or len(ShareSet.log2) != 256:
+            return "ShareSet._load() called again builds other tables"
+        if ShareSet(list(objs)).recover(b"pw") != secret:
+            return "recovery after _load() was called again is wrong"
+        del exp_id, log_id
+    return None
+
+
+def p_repr(f):
+    """repr(share) shows the share text (it calls mnemonic()) and leaves the object alone"""
+    s = Share(*f)
+    before = sfields(s) + [s.bytes]
+    lines = [x for x in repr(s).split("\n") if x.strip()]
+    if not lines or lines[0] != enc_share(f):
+        return "the first line of repr(share) is not the SLIP39 text of the share"
+    if sfields(s) + [s.bytes] != before or s.mnemonic() != enc_share(f):
+        return "repr(share) changed the share"
+    return None
+
+
+PROPS = {"lenient": p_lenient, "sentence_lenient": p_sentence_lenient, "sentence_spelling": p_sentence_spelling,
+         "defaults": p_defaults, "reuse": p_reuse, "repr": p_repr,
+         "other_lengths": p_other_lengths, "refused": p_refused, "mixed_lengths": p_mixed_lengths,
          "shareset_edited": p_shareset_edited, "rs1024": p_rs1024, "parse_ref": p_parse_ref, "relabelled": p_relabelled, "parse_ws": p_parse_ws, "mixed_pipeline": p_mixed_pipeline, "subst_text": p_subst_text, "canonical": p_canonical, "secrecy": p_secrecy,
          "recover_repeat": p_recover_repeat, "gf": p_gf, "split_recover": p_split_recover, "pipeline": p_pipeline, "mixed": p_mixed,
          "share_rt": p_share_rt, "subst1_all": p_subst1_all, "subst_multi": p_subst_multi, "feistel": p_feistel,
@@ -1447,3 +1764,101 @@ def generate(ctx):
             fl[r.randrange(len(fl))][7] = r.randrange(1, 5)   # inconsistent member threshold in a group
             ctx.label("two-level/member-threshold-mismatch")
         yield ("corr", "recover_shares_fast", [fl, b"pw"])
+    # ================= audit round: entry points x blind-spot kinds (all cases deterministic in the seed, hand-built
+    # with the independent encoder) =================
+    # (d) byte classes: shares whose every header/value bit is 0 (17 / 30 times the word number 0) or 1, one-hot values
+    ZERO = lambda bits: [bits, 0, 0, 0, 1, 1, 0, 1, 0]                                   # noqa: E731
+    ONES = lambda bits: [bits, 32767, 31, 15, 16, 16, 15, 16, (1 << bits) - 1]           # noqa: E731
+    special = [ZERO(128), ZERO(256), ONES(128), ONES(256), [128, 0, 0, 0, 1, 1, 0, 1, 1], [256, 0, 0, 0, 1, 1, 0, 1, 1 << 255],
+               [128, 32767, 31, 15, 16, 16, 15, 16, 0], [128, 0, 0, 15, 1, 16, 15, 1, (1 << 128) - 1]]
+    for f in special:
+        ctx.label("audit/share-all-zero-all-one-fields")
+        txt = enc_share(f)
+        yield ("prop", "share_rt", [f])
+        yield ("prop", "repr", [f])
+        yield ("corr", "share_mnemonic", [f])
+        yield ("corr", "share_parse", [txt.encode()])
+        yield ("corr", "share_reencode", [txt.encode()])
+        yield ("prop", "canonical", [[SLI[w] for w in txt.split(" ")], r.getrandbits(20)])
+        yield ("prop", "parse_ref", [[SLI[w] for w in txt.split(" ")], 0])
+        for pos in (0, 4, len(txt.split(" ")) - 1):
+            yield ("prop", "subst1_all", [f, pos])
+        yield ("corr", "recover_shares_fast", [[f], b""])
+        yield ("corr", "shareset_fields", [[f]])
+    for i in range(ctx.n(12, 100)):
+        ctx.label("audit/repr-shows-the-share-text")
+        yield ("prop", "repr", [rfields(ctx, bits=r.choice([128, 256, 160]), edge=(i % 2 == 0))])
+    for nb in (16, 32):
+        for ent in (bytes(nb), b"\xff" * nb):
+            for (k, n, ident) in ((1, 1, 0), (2, 2, 0), (2, 3, 32767)):
+                # secret, identifier, passphrase, exponent and random stream all zero (all one)
+                ctx.label("audit/pipeline-all-zero-all-one-inputs")
+                rnd = ent[:1] * rnd_need(nb, k)
+                yield ("prop", "pipeline", [ent, k, n, b"", 0, ident, rnd, subsets_for(r, k, n, 0, True), 1])
+                yield ("corr", "generate_shares_fast", [ref_bip39(ent).encode(), k, n, b"", 0, ident, rnd])
+    # (d) whole texts of an unusual class through Share.parse: empty, white space only, digits, one word, every word in
+    # capitals / capitalised, separators that are not white space
+    t0 = enc_share(rfields(ctx, bits=128))
+    for txt in (b"", b" ", b"\n\t ", b"0", b"0 1 2 3", b"-1", " ".join(str(SLI[w]) for w in t0.split(" ")).encode(), b"academic",
+                t0.upper().encode(), t0.title().encode(), t0.replace(" ", ",").encode(), t0.replace(" ", "").encode(),
+                (t0 + " ").encode() * 2, t0.encode() + b"\x00", b"\x00" + t0.encode(), t0.swapcase().encode()):
+        ctx.label("audit/parse-text-classes")
+        yield ("corr", "share_parse", [txt])
+        yield ("corr", "recover_mnemonic_fast", [[txt], b""])
+    # (e) lenient decoding + compensation: an illegal token where the checksum would verify had it been read as a number
+    TOKENS = [b"zz", b"0", b"-1", b"1023", b"aca", b"ACADEMIC", b"Zoo", b"abandon", b"academicx", b"?", b"\xe9"]
+    READAS = [0, 1, 1023, -1, 1024, 2047, -2, 1 << 20]
+    for j, f in enumerate([ZERO(128), rfields(ctx, bits=128), rfields(ctx, bits=256), ONES(256)]):
+        nw = 20 if f[0] == 128 else 33
+        for pos in [0, 1, 2, 3, 4, nw - 4, nw - 3, nw - 2, nw - 1, r.randrange(5, nw - 4)]:
+            for v in READAS:
+                if not 0 <= v < 1024 and (pos >= nw - 3 or j % 2 == 1 and pos not in (0, nw - 4)):
+                    continue
+                ctx.label("audit/lenient-word-with-compensated-checksum")
+                yield ("prop", "lenient", [f, pos, TOKENS[(pos + v + j) % len(TOKENS)], v])
+    BTOKENS = [b"zz", b"0", b"-1", b"2047", b"ABANDON", b"aba", b"abandonx", b"academic", b"?"]
+    for j, (nb, k, n) in enumerate([(16, 1, 1), (16, 2, 3), (32, 1, 2), (32, 3, 3)]):
+        for v in (0, 2047, -1, 2048, 1, -2048):
+            for pos in (0, r.randrange(1, 9), nb * 33 // 44 - 3):
+                ctx.label("audit/lenient-sentence-word-with-compensated-neighbour")
+                yield ("prop", "sentence_lenient", [ctx.rbytes(nb), k, n, pos, BTOKENS[(j + v + pos) % len(BTOKENS)], v,
+                                                    r.getrandbits(15), ctx.rbytes(rnd_need(nb, k))])
+    # (a)/(d) the sentence handed to generate_shares in prefix spelling / other white space
+    for i in range(ctx.n(10, 100)):
+        nb = [16, 32][i % 2]
+        k, n = [(1, 1), (2, 3), (3, 3), (1, 4), (2, 2)][i % 5]
+        ctx.label("audit/sentence-prefix-spelling-and-white-space")
+        yield ("prop", "sentence_spelling", [ctx.rbytes(nb), k, n, r.choice(PASS), r.choice([0, 1]), r.getrandbits(15),
+                                             ctx.rbytes(rnd_need(nb, k)), [0, (1 << 24) - 1, r.getrandbits(24)][i % 3],
+                                             r.choice([b" ", b"\t", b"\n", b"  ", b" \r\n"]), r.choice([b"", b" ", b"\n"]),
+                                             r.choice([b"", b" ", b"\n\n"])])
+    # (b)/(a) omitted optional arguments, keyword calls, tuples / iterators, class methods on instances
+    for i in range(ctx.n(10, 120)):
+        nb = [16, 32][i % 2]
+        k, n = [(1, 1), (2, 3), (3, 5), (1, 3), (2, 2), (16, 16)][i % 6]
+        ctx.label("audit/default-and-keyword-arguments")
+        yield ("prop", "defaults", [ctx.rbytes(nb), k, n, [b"TREZOR", b"x", b"\x00", b" "][i % 4], [1, 2, 1, 0][i % 4],
+                                    r.choice([0, 1, 32767, r.getrandbits(15)]), ctx.rbytes(rnd_need(nb, k))])
+    # (f) two-level sets whose groups DIFFER in member threshold / count (the first, the last, the middle one odd), exactly
+    # the thresholds presented; (g) the same objects, lists and tables used again after results and after refusals
+    TL = [(3, 3, [[1, 1], [2, 3], [3, 5]]), (3, 3, [[3, 5], [2, 3], [1, 1]]), (2, 3, [[2, 2], [1, 3], [2, 2]]), (2, 2, [[1, 2], [4, 4]]),
+          (2, 2, [[16, 16], [1, 1]]), (1, 2, [[2, 3], [3, 3]]), (1, 1, [[1, 1]]), (1, 1, [[2, 2]]), (4, 4, [[2, 2], [3, 3], [4, 4], [5, 5]]),
+          (2, 16, [[1 + g % 3, 3] for g in range(16)])]
+    for i, (gt, gc, groups) in enumerate(TL):
+        nb = [16, 32][i % 2]
+        rnd = ctx.rbytes(rnd_need(nb, gt) + sum(rnd_need(nb, mt) for mt, _ in groups) + 8)
+        secret = ctx.rbytes(nb)
+        take = [list(range(mc))[mc - mt:] for (mt, mc) in groups]
+        ctx.label("audit/two-level-groups-differing-in-member-threshold")
+        yield ("prop", "two_level", [secret, gt, gc, groups, rnd, take])
+        yield ("prop", "two_level", [secret, gt, gc, groups, rnd, [t[1:] if g == i % gc else t for g, t in enumerate(take)]])
+        fl = ref_two_level(secret, gt, gc, groups, rnd)
+        yield ("corr", "recover_shares_fast", [[f for f in fl if f[6] in take[f[3]]], b"pw"])
+        yield ("corr", "recover_shares_fast", [[f for f in fl if f[6] in take[f[3]]][::-1], b"pw"])
+        for drop in range(min(gt, 2)):
+            ctx.label("audit/sources-reused-after-results-and-refusals")
+            yield ("prop", "reuse", [secret, gt, gc, groups, rnd, drop])
+    # (g) the class-level tables once more, after everything above has run
+    ctx.label("audit/gf-tables-after-all-cases")
+    yield ("corr", "gf_tables", [])
+    yield ("prop", "gf", [])
